@@ -92,6 +92,15 @@ def _impl(tier, seed, search):
                 so(f'rpy2r(scalars,{tn_})', lambda: b.rpy2r(thn, thn, thn, unit=unit), inpn); so(f'eul2r(scalars,{tn_})', lambda: b.eul2r(thn, thn, thn, unit=unit), inpn)
                 valid_obj(f'SO2({tn_})', lambda: SO2(thn, unit=unit), inpn); valid_obj(f'SE2({tn_})', lambda: SE2(1.0, 2.0, thn, unit=unit), inpn)
                 valid_obj(f'SO3.Rx({tn_})', lambda: SO3.Rx(thn, unit) * SO3.Ry(thn, unit), inpn); valid_obj(f'SE3.Rz({tn_})', lambda: SE3.Rz(thn, unit), inpn); valid_obj(f'UQ.Rx({tn_})', lambda: UnitQuaternion.Rx(thn, unit), inpn)
+        # vector arguments held in single precision (axis, rotation vector, o/a pair, twist, quaternion components): a double-precision member
+        if i % 4 == 2:
+            ax32 = inputs.unit_axis(g).astype(np.float32) * np.float32(10.0 ** g.uniform(-1, 1)); w32 = (inputs.unit_axis(g) * float(g.uniform(0.1, 3.0))).astype(np.float32); tw32 = np.r_[g.normal(size=3), inputs.unit_axis(g) * float(g.uniform(0.1, 3.0))].astype(np.float32)
+            o32 = inputs.unit_axis(g).astype(np.float32); a32 = np.cross(o32.astype(float), inputs.unit_axis(g)).astype(np.float32); q32 = inputs.unitq(g).astype(np.float32); i32 = dict(dtype='float32')
+            so('angvec2r(float32 axis)', lambda: b.angvec2r(0.7, ax32), i32); so('trexp(float32 w)', lambda: b.trexp(w32), i32); se('trexp(float32 twist)', lambda: b.trexp(tw32), i32); so('rodrigues(float32 w)', lambda: b.rodrigues(w32), i32)
+            if np.linalg.norm(a32) > 0.1: so('oa2r(float32)', lambda: b.oa2r(o32, a32), i32); valid_obj('SO3.OA(float32)', lambda: SO3.OA(o32, a32), i32); valid_obj('UQ.OA(float32)', lambda: UnitQuaternion.OA(o32, a32), i32)
+            valid_obj('SO3.AngVec(float32 axis)', lambda: SO3.AngVec(0.7, ax32), i32); valid_obj('SO3.EulerVec(float32)', lambda: SO3.EulerVec(w32), i32); valid_obj('SE3.Exp(float32)', lambda: SE3.Exp(tw32), i32); valid_obj('SO3.Exp(float32)', lambda: SO3.Exp(w32), i32)
+            valid_obj('UQ(float32 4-vector)', lambda: UnitQuaternion(q32), i32); valid_obj('UQ(s, float32 v)', lambda: UnitQuaternion(float(q32[0]), q32[1:]), i32); valid_obj('UQ.AngVec(float32 axis)', lambda: UnitQuaternion.AngVec(0.7, ax32), i32)
+            valid_obj('UQ.EulerVec(float32)', lambda: UnitQuaternion.EulerVec(w32), i32); uq('base.unit(float32)', lambda: b.unit(q32), i32)
         ang = np.array([geom.big_angle(g) for _ in range(3)]); angu = ang if unit == 'rad' else np.degrees(ang)
         o = ORD[i % 6]
         so('rpy2r', lambda: b.rpy2r(angu, order=o, unit=unit), dict(angles=angu, order=o, unit=unit))
@@ -194,6 +203,14 @@ def _impl(tier, seed, search):
         qg, qn = b.r2q(Rg), b.r2q(Rnear)
         uq('slerp(near)', lambda: b.slerp(qg, qn, si), ninp); uq('slerp(near, shortest)', lambda: b.slerp(qg, qn, si, shortest=True), ninp)
         uq('UQ.interp(near)', lambda: UnitQuaternion(qg).interp(si, UnitQuaternion(qn)).vec, ninp)
+        # … and between almost antipodal quaternions (a full turn minus 1e-8 .. 1e-4 rad apart; the longer arc unless the shorter is requested)
+        dfull = 10.0 ** g.uniform(-8, -4); axf = inputs.unit_axis(g); qfar = b.qqmul(qg, np.r_[math.cos(math.pi - dfull / 2), math.sin(math.pi - dfull / 2) * axf])
+        finp = dict(q0=qg, q1=qfar, s=si, full_turn_minus=dfull)
+        for sh_ in (False, True):
+            uq(f'UQ.interp(almost antipodal, shortest={sh_})', lambda: UnitQuaternion(qg).interp(si, UnitQuaternion(qfar), shortest=sh_).vec, finp)
+            uq(f'slerp(almost antipodal, shortest={sh_})', lambda: b.slerp(qg, qfar, si, shortest=sh_), finp)
+        uq('UQ.Rz(2pi - d).interp(s)', lambda: UnitQuaternion.Rz(2 * math.pi - dfull).interp(si).vec, finp)
+        so('UQ.interp(almost antipodal).R', lambda: UnitQuaternion(qg).interp(si, UnitQuaternion(qfar)).R, finp)
         # class constructors
         valid_obj('SO3.Rx/Ry/Rz', lambda: getattr(SO3, 'R' + 'xyz'[i % 3])(thu, unit), inp)
         valid_obj('SE3.Rx/Ry/Rz', lambda: getattr(SE3, 'R' + 'xyz'[i % 3])([thu, -thu], unit), inp)
